@@ -278,6 +278,25 @@ func buildCases(tier string) []caseT {
 				}
 			}
 		}
+		// a clause given twice: equal, different, one a prefix of the other, with other terms between them
+		lists := []string{"id", "-id", "id,-ftime", "id,-ftime,cbytes", "ftime", "-ftime,id", "id,id", ""}
+		for _, a := range lists {
+			for _, b := range lists {
+				sl("sort:" + a + " sort:" + b)
+				sl("sort:" + a + " cport:1 limit:5 sort:" + b + " limit:5")
+			}
+		}
+		for _, a := range []string{"1", "5", "0", ""} {
+			for _, b := range []string{"1", "5", "0", "x"} {
+				sl("limit:" + a + " limit:" + b)
+				sl("limit:" + a + " id:1 sort:id limit:" + b)
+			}
+		}
+		for _, a := range []string{"@id@", "@cport@", "\"@id@ @cport@\"", ""} {
+			for _, b := range []string{"@id@", "@cport@", "\"@id@ @cport@\"", "\"@id@ @cport@ @sport@\""} {
+				sl("group:" + a + " group:" + b)
+			}
+		}
 		for _, v := range []string{"", "0", "1", "-1", "+1", "1,2", "x", "18446744073709551615", "18446744073709551616", " 5", "5 ", "1.5", "0x10", "\"5\"", "\"\"", "\""} {
 			sl("limit:" + v)
 			sl("id:1 limit:" + v + " sort:id")
